@@ -25,14 +25,14 @@ RULE = (
 )
 ASSUMPTIONS = [
     "a bare table name resolves in the host sheet first, then document-wide; over-qualification is not a violation",
-    "labels are text that cannot be mistaken for A1 notation, contain no '::'/':' and row labels are disjoint from "
+    "labels are text that cannot be mistaken for A1 notation, contain no '::' and row labels are disjoint from "
     "column labels within a table in three tables out of four; a label shared by a row and a column of one table is taken to name neither (it has two readings)",
     "reference nodes are installed through the table's formula list; the observation is Cell.formula",
 ]
 
 LABELS = ["alpha", "beta", "gamma", "x y", "p+q", "10% off", "a-b", "total", "Q1 2024", "näme", "m&m", "f(x)", "size^2", "a*b", "", "delta", "é", "it's", "say \"hi\"",
-          "item #1"]
-TABLE_NAMES = ["Table 1", "Data", "T", "Sales 2024", "Bob's"]
+          "item #1", "fruit:meat", "x;y"]
+TABLE_NAMES = ["Table 1", "Data", "T", "Sales 2024", "Bob's", "P&L", "Costs, 2023", "1+Tax", "a:b"]
 SHEET_NAMES = ["Sheet 1", "Sheet 2", "Summary"]
 
 
@@ -330,7 +330,8 @@ def check_config(ctx, case):
                 # the replay case is the original configuration plus the edits that led to this phase
                 sub = {"lane": "config", "config": config, "refs": [ref], "phase": phase,
                        "edit": case.get("edit") if phase != "reopened" else None,
-                       "rename": case.get("rename") if phase not in ("reopened", "after_header_edit") else None,
+                       "edit_format": case.get("edit_format") if phase not in ("reopened", "after_header_edit") else None,
+                       "rename": case.get("rename") if phase not in ("reopened", "after_header_edit", "after_number_label", "after_header_format") else None,
                        "rename_sheet": case.get("rename_sheet") if phase in ("after_sheet_rename", "after_header_zero", "after_insert", "after_header_merge") else None,
                        "header_zero": case.get("header_zero") if phase in ("after_header_zero", "after_insert", "after_header_merge") else None,
                        "insert": case.get("insert") if phase in ("after_insert", "after_header_merge") else None,
@@ -377,6 +378,32 @@ def check_config(ctx, case):
                 read_all(d2, "after_header_edit", cfg2)
                 ctx.count("header_edits")
                 cfg_now = cfg2
+        # a number as a label, then a number format on that header cell: the label is the text the cell displays
+        ef = case.get("edit_format")
+        if ef:
+            import copy
+
+            si, ti, axis, idx, value, places = ef
+            tcn = cfg_now["sheets"][si]["tables"][ti]
+            labels = tcn["col_labels" if axis == "col" else "row_labels"]
+            other = tcn["row_labels" if axis == "col" else "col_labels"]
+            hidden = tcn.get("header_merge") and axis == "col" and idx == tcn["header_merge"][2]
+            shown = [repr(float(value)), f"{value:.{places}f}"]
+            if str(idx) in labels and not hidden and not (set(shown) & (set(other.values()) | set(labels.values()))):
+                t = d2.sheets[si].tables[ti]
+                pos = (tcn["hr"] - 1, idx) if axis == "col" else (idx, tcn["hc"] - 1)
+                for step, text in enumerate(shown):
+                    with warnings.catch_warnings():
+                        warnings.simplefilter("ignore")
+                        if step == 0:
+                            t.write(*pos, float(value))
+                        else:
+                            t.set_cell_formatting(*pos, "number", decimal_places=places)
+                    cfgf = copy.deepcopy(cfg_now)
+                    cfgf["sheets"][si]["tables"][ti]["col_labels" if axis == "col" else "row_labels"][str(idx)] = text
+                    read_all(d2, "after_number_label" if step == 0 else "after_header_format", cfgf)
+                    cfg_now = cfgf
+                ctx.count("header_formats")
         # renaming a table changes which names are unique in the document: printed references must follow
         ren = case.get("rename")
         if ren:
@@ -495,6 +522,9 @@ def cases(draw, nrefs):
     if labels:
         idx = int(draw(st.sampled_from(sorted(labels))))
         edit = [si, ti, axis, idx, draw(st.sampled_from(LABELS[:8] + ["renamed", "alpha 1"]))]
+    edit_format = None
+    if labels and draw(st.booleans()):
+        edit_format = [si, ti, axis, int(draw(st.sampled_from(sorted(labels)))), draw(st.sampled_from([1234.5, 0.25, 7.0, 19.1])), draw(st.integers(2, 4))]
     rs, rt, _ = draw(st.sampled_from(tabs))
     rename = [rs, rt, draw(st.sampled_from(TABLE_NAMES + ["Renamed"]))]
     rename_sheet = [draw(st.integers(0, len(config["sheets"]) - 1)), draw(st.sampled_from(["Totals", "Q1 'draft'", "a-b", "Sheet 9"]))]
@@ -505,7 +535,7 @@ def cases(draw, nrefs):
     ms, mt, _ = draw(st.sampled_from(tabs))
     merge_header = [ms, mt, draw(st.floats(0, 0.999))]
     return {"lane": "config", "config": config, "refs": refs, "edit": edit, "rename": rename, "rename_sheet": rename_sheet,
-            "header_zero": header_zero, "insert": insert, "merge_header": merge_header}
+            "header_zero": header_zero, "insert": insert, "merge_header": merge_header, "edit_format": edit_format}
 
 
 def tasks(tier, seed):
@@ -522,5 +552,5 @@ def run_task(ctx, lane, **kw):
 
 
 def check_case(ctx, case):
-    case = {k: v for k, v in case.items() if k in ("lane", "config", "refs", "edit", "rename", "rename_sheet", "header_zero", "insert", "merge_header")}
+    case = {k: v for k, v in case.items() if k in ("lane", "config", "refs", "edit", "rename", "rename_sheet", "header_zero", "insert", "merge_header", "edit_format")}
     check_config(ctx, case)
